@@ -274,6 +274,25 @@ class GuardedList:
     def __repr__(self):
         return 'GuardedList(%d)' % len(self.elems)
 
+    def append(self, x):
+        self.elems.append(x)
+        self.guards.append(True)
+
+    def extend(self, xs):
+        if isinstance(xs, GuardedList):
+            self.elems += xs.elems
+            self.guards += xs.guards
+        else:
+            for x in xs:
+                self.append(x)
+
+    def __iadd__(self, xs):
+        self.extend(xs)
+        return self
+
+    def copy(self):
+        return GuardedList(self.elems, self.guards)
+
     def guard_of(self, x):
         """disjunction of the guards of the elements identical to x"""
         return Or(*[g for e, g in zip(self.elems, self.guards) if e is x])
